@@ -50,7 +50,48 @@ func Header(meta string) []byte {
 	return h
 }
 
+// HeaderWith builds a header that is longer than the shortest one for meta by
+// extra 32-byte units (capped at one page) and, with junk, has non-zero bytes
+// after the NUL that ends the metadata.
+func HeaderWith(meta string, extra int, junk bool, r *Rand) []byte {
+	np := roundUp(len(Prefix), 4)
+	need := np + 4 + len(meta)
+	if junk {
+		need += 2 // the NUL and at least one junk byte
+	}
+	n := roundUp(need, 32) + 32*extra
+	if n > Page {
+		n = Page
+	}
+	if n < need {
+		return Header(meta)
+	}
+	h := make([]byte, n)
+	copy(h, Prefix)
+	binary.LittleEndian.PutUint32(h[np:], uint32(n))
+	copy(h[np+4:], meta)
+	if junk {
+		for k := np + 4 + len(meta) + 1; k < n; k++ {
+			h[k] = byte(1 + r.Intn(255))
+		}
+	}
+	return h
+}
+
+// LongMeta returns well-formed metadata of more than 512 bytes (more than the
+// library writes, within what a one-page header holds).
+func LongMeta(r *Rand) string {
+	var sb strings.Builder
+	target := 513 + r.Intn(3000)
+	for i := 0; sb.Len() < target; i++ {
+		fmt.Fprintf(&sb, "Key%d: %s\n", i, strings.Repeat("v", 1+r.Intn(200)))
+	}
+	return sb.String()
+}
+
 type Policy struct {
+	HdrExtra  int  // header longer than the minimum by this many 32-byte units
+	HdrJunk   bool // non-zero bytes after the NUL that ends the metadata
 	Tag       int  // -1: random per record, else the tag byte (0 or 0xff)
 	Gaps      bool // leave 0..3 unused units before records
 	TailLink  bool // link new records at the tail of their chain
@@ -67,6 +108,9 @@ type Policy struct {
 // linked at the head of their bucket.
 func Encode(meta string, cs []KV, p Policy, r *Rand) []byte {
 	hdr := Header(meta)
+	if p.HdrExtra > 0 || p.HdrJunk {
+		hdr = HeaderWith(meta, p.HdrExtra, p.HdrJunk, r)
+	}
 	hl := len(hdr)
 	buf := make([]byte, Page)
 	copy(buf, hdr)
@@ -77,6 +121,7 @@ func Encode(meta string, cs []KV, p Policy, r *Rand) []byte {
 			buf = append(buf, make([]byte, Page)...)
 		}
 	}
+	grow(hl + TableOff + 4*NumHash)
 	// allocate
 	order := make([]int, len(cs))
 	for i := range order {
@@ -158,6 +203,8 @@ func Encode(meta string, cs []KV, p Policy, r *Rand) []byte {
 
 func RandPolicy(r *Rand) Policy {
 	return Policy{
+		HdrExtra:  Pick(r, []int{0, 0, 0, 1, 2, 5, 17, 100, 490, 511}),
+		HdrJunk:   r.Chance(30),
 		Tag:       Pick(r, []int{0, 0xff, -1}),
 		Gaps:      r.Bool(),
 		TailLink:  r.Bool(),
@@ -175,7 +222,7 @@ func (p Policy) String() string {
 		}
 		return '0'
 	}
-	return fmt.Sprintf("t%d%c%c%c%c%c%c", p.Tag, b(p.Gaps), b(p.TailLink), b(p.Shuffle), b(p.Junk), b(p.SlackLim), b(p.ExtraPage))
+	return fmt.Sprintf("t%d%c%c%c%c%c%c%c-x%d", p.Tag, b(p.Gaps), b(p.TailLink), b(p.Shuffle), b(p.Junk), b(p.SlackLim), b(p.ExtraPage), b(p.HdrJunk), p.HdrExtra)
 }
 
 // ---- names and metadata
@@ -206,7 +253,7 @@ func NameOfLen(r *Rand, n int) string {
 			b[i] = byte(r.Uint64())
 		}
 	case 1:
-		alpha := []byte{0, '\n', 0xff, '"', '.', ':', ' ', 'a', 'b', '/', 0x80, 0xc3, 0xa9}
+		alpha := []byte{0, '\n', 0xff, '"', '.', ':', ' ', 'a', 'b', '/', 0x80, 0xc3, 0xa9, '[', ']'}
 		for i := range b {
 			b[i] = alpha[r.Intn(len(alpha))]
 		}
@@ -222,7 +269,10 @@ func NameOfLen(r *Rand, n int) string {
 // StackName returns a compressed stack counter name the way EncodeStack
 // shapes them (prefix, then lines "path.func:+1,+0x2" with ditto marks).
 func StackName(r *Rand) string {
-	paths := []string{"main", "runtime", "golang.org/x/tools/gopls/internal/cache", "a.b/c", "\"", "x"}
+	// incl. instantiated generic functions: the runtime spells them pkg.F[go.shape.int],
+	// so the last dot (the one DecodeStack cuts at) lies inside the brackets
+	paths := []string{"main", "runtime", "golang.org/x/tools/gopls/internal/cache", "a.b/c", "\"", "x",
+		"pkg.Gen[go.shape", "a.b/c.(*T[x.y/z", "m.F[a.b,c"}
 	var sb strings.Builder
 	sb.WriteString(Pick(r, []string{"crash/crash", "gopls/bug", "p", ""}))
 	k := 1 + r.Intn(6)
@@ -237,7 +287,7 @@ func StackName(r *Rand) string {
 		}
 		switch r.Intn(8) {
 		case 0:
-			sb.WriteString(Pick(r, []string{"nodot", "", ".", "\".", ".x", "\"", "a.\""}))
+			sb.WriteString(Pick(r, []string{"nodot", "", ".", "\".", ".x", "\"", "a.\"", "p.g[q.r]:+2,+0x1", "\".r]:+5,+0x2", "[.", "p[q].s"}))
 		default:
 			fmt.Fprintf(&sb, "%s.f%d:+%d,+0x%x", p, r.Intn(4), r.Intn(30), r.Intn(4096))
 		}
